@@ -788,10 +788,24 @@ func (g *c16Gen) randList(max int, withVars bool) []*term.Term {
 // holes replaces some elements of a list by fresh variables (ids from 40 upwards).
 func (g *c16Gen) holes(es []*term.Term) *term.Term {
 	out := append([]*term.Term{}, es...)
+	// every third time all holes are ONE variable (the elements at those positions then have to be equal)
+	shared := g.r.Intn(3) == 0
 	for i := range out {
 		if g.r.Intn(2) == 0 {
 			out[i] = term.V(40 + int64(i))
+			if shared {
+				out[i] = term.V(40)
+			}
 		}
+	}
+	return term.L(out...)
+}
+
+// sameVar returns the list of len(es) elements that are all the same variable.
+func (g *c16Gen) sameVar(es []*term.Term) *term.Term {
+	out := make([]*term.Term, len(es))
+	for i := range out {
+		out[i] = term.V(46)
 	}
 	return term.L(out...)
 }
@@ -871,7 +885,7 @@ func (g *c16Gen) atomText(pred, s string, alpha []rune, fam string, cap int) *c1
 	}
 	o := g.otherAtom(s, alpha)
 	es, _ := term.ListElems(mk(s))
-	ls := []*term.Term{c16V(1), mk(s), mk(o.S), g.holes(es), g.partial(es, 50), mk(s + "a")}
+	ls := []*term.Term{c16V(1), mk(s), mk(o.S), g.holes(es), g.partial(es, 50), mk(s + "a"), g.sameVar(es), g.holes(es)}
 	if len(es) > 0 {
 		ls = append(ls, term.L(es[:len(es)-1]...), term.PL(term.V(51), g.holes(es[:len(es)-1]).Args...))
 	}
